@@ -661,8 +661,8 @@ def exact_floor_note(rad, cx, cy, hw, hh):
                for rf in radius_floats(rad))
 
 
-def oracle_kernel(c, note=None):
-    st, k = call_kernel(c)
+def oracle_kernel(c, note=None, built=None):
+    st, k = call_kernel(c) if built is None else built
     if c["kind"] == "ellipse":
         hw, hh = c["hw"], c["hh"]
         if hw < 0 or hh < 0:
@@ -763,10 +763,10 @@ def kernel_requests(c):
     return [f"annulus cx={cx} cy={cy} ro={cps(rad_str(c['ro']))} ri={cps(rad_str(c['ri']))}"]
 
 
-def compare_kernel(r, c, replies):
+def compare_kernel(r, c, replies, built=None):
     """exact comparison: the model performs `float(number)`, `* UNITS[unit]` and `/ cellsize` with
     IEEE binary64 rounding, so even radii that are exact multiples of a cell size must agree"""
-    st, k = call_kernel(c)
+    st, k = call_kernel(c) if built is None else built
     rep = replies[0]
     strs = [rad_str(c[key]) for key in ("r", "ro", "ri") if key in c]
     if not all(s.isascii() for s in strs):
@@ -783,6 +783,83 @@ def compare_kernel(r, c, replies):
     if mg.shape != k.shape or not np.array_equal(mg, k):
         r.disagree("kernel-vs-real", c, f"shape {k.shape} {k.tolist() if k.size < 60 else ''}",
                    f"shape {mg.shape} {mg.tolist() if mg.size < 60 else ''}")
+
+
+# ------------------------------------------------------------------------------------------------
+# 3b. kernel-builder histories: build, the caller edits what it was handed, build again with equal half sizes
+# ------------------------------------------------------------------------------------------------
+EDITS = ["fill", "centre0", "normalise", "negate", "none"]
+
+
+def spell_radius(rng, r):
+    """the same distance written differently: number, decimal string, metres, kilometres, feet"""
+    how = rng.choice(["num", "num", "str", "m", "km", "ft", "int"])
+    if how == "int" and r == int(r):
+        return int(r)
+    if how == "str":
+        return repr(float(r))
+    if how == "m":
+        return f"{float(r)!r} m" if rng.random() < 0.5 else f"{float(r)!r}meters"
+    if how == "km" and plain_decimal(repr(r / 1000.0)):
+        return f"{r / 1000.0!r}km"
+    if how == "ft" and plain_decimal(repr(r / 0.3048)):
+        return f"{r / 0.3048!r} ft"
+    return float(r)
+
+
+def gen_khist(rng):
+    """a caller's session with the kernel builders: every step asks for a kernel with the SAME integer half sizes as
+    the step before (other cell sizes / radius / unit spelling), and between the steps the caller edits the arrays it
+    was handed in place (zero the centre for a neighbours-only kernel, normalise, negate, overwrite).  Every build
+    must still be the stated shape."""
+    hw, hh = rng.randrange(1, 6), rng.randrange(1, 6)
+    steps = []
+    for _ in range(rng.randrange(3, 7)):
+        if rng.random() < 0.25:
+            hw, hh = rng.randrange(1, 6), rng.randrange(1, 6)       # now and then another size
+        c = rng.choice([1, 1, 2, 0.5, 10, 0.25, 30])
+        cx = c
+        r = c * (hw + rng.choice([0.5, 0.25, 0.75]))
+        cy = r / (hh + rng.choice([0.5, 0.25, 0.75]))
+        if rng.random() < 0.3 and hw == hh:
+            cy = cx
+        fn = rng.choice(["circle", "circle", "annulus", "ellipse"])
+        if fn == "ellipse":
+            call = dict(kind="ellipse", sub="valid", hw=hw, hh=hh)
+        elif fn == "circle":
+            call = dict(kind="circle", sub="valid", cx=cx, cy=cy, r=spell_radius(rng, r))
+        else:
+            call = dict(kind="annulus", sub="valid", cx=cx, cy=cy, ro=spell_radius(rng, r), ri=spell_radius(rng, r * rng.choice([0.25, 0.5])))
+        steps.append(dict(call=call, edit=rng.choice(EDITS)))
+    return dict(kind="khist", sub="caller-edits", steps=steps)
+
+
+def apply_edit(k, edit):
+    if not isinstance(k, np.ndarray) or k.ndim != 2 or not k.size or not k.flags.writeable or edit == "none":
+        return
+    if edit == "fill":
+        k[...] = -7.5
+    elif edit == "centre0":
+        k[k.shape[0] // 2, k.shape[1] // 2] = 0
+    elif edit == "normalise" and k.sum() != 0:
+        k /= k.sum()
+    elif edit == "negate":
+        k *= -1
+
+
+def run_khist(c):
+    """-> (first failure or None, [(status, copy of the array as returned) per step])"""
+    bad, builds = None, []
+    for n, st in enumerate(c["steps"]):
+        status, k = call_kernel(st["call"])
+        builds.append((status, k.copy() if isinstance(k, np.ndarray) else k))
+        if bad is None:
+            b = oracle_kernel(st["call"], built=(status, k))
+            if b:
+                edits = [f"{m}:{s_['edit']}" for m, s_ in enumerate(c["steps"][:n]) if s_["edit"] != "none"]
+                bad = f"step {n} of a kernel-builder session (the caller edited in place the arrays returned by steps {edits}): {b}"
+        apply_edit(k, st["edit"])
+    return bad, builds
 
 
 # ------------------------------------------------------------------------------------------------
@@ -904,7 +981,7 @@ def compare_round(r, c, reply):
 
 
 ORACLES = {"round": lambda c: None, "dist": oracle_dist, "string": oracle_string, "circle": oracle_kernel, "annulus": oracle_kernel,
-           "ellipse": oracle_kernel, "cellsize": oracle_cellsize}
+           "ellipse": oracle_kernel, "cellsize": oracle_cellsize, "khist": lambda c: run_khist(c)[0]}
 
 
 def mile_singular(c):
@@ -927,8 +1004,9 @@ def corpus_cases(r):
 
 
 def counts(tier, scale=1):
-    base = {"quick": dict(dist=6000, wild=1000, string=15000, kernel=3000, malformed=600, cellsize=600, round=1500),
-            "thorough": dict(dist=150000, wild=20000, string=400000, kernel=60000, malformed=12000, cellsize=10000, round=30000)}[tier]
+    base = {"quick": dict(dist=6000, wild=1000, string=15000, kernel=3000, malformed=600, cellsize=600, round=1500, khist=300),
+            "thorough": dict(dist=150000, wild=20000, string=400000, kernel=60000, malformed=12000, cellsize=10000, round=30000,
+                             khist=6000)}[tier]
     return {k: int(v * scale) for k, v in base.items()}
 
 
@@ -960,6 +1038,9 @@ def run(r, scale=1, oracle_only=False):
               "notations, inf/nan spellings, random strings over digits . - + blanks and unit letters; kernels: cell sizes "
               "from {1..100, dyadics, 0.1, 0.3, 0.3048} with cx != cy, radii as ints / floats / exact multiples of a cell "
               "size / unit strings, malformed (zero / negative cell size, bad radius, inner > outer, zero radius); "
+              "kernel-builder sessions: 3..6 builds (circle / annulus / _ellipse_kernel) with the same integer half sizes from "
+              "different cell sizes, radii and unit spellings, the caller editing every returned array in place between the "
+              "builds (overwrite, zero the centre, normalise, negate), each build checked against the stated shape and the model; "
               "calc_cellsize: res tuple / scalar / coordinates x unit attribute; non-trivial = distinct case json, "
               "excluding identical-point planar triples and all-zero inputs")
     cases = corpus_cases(r)
@@ -978,6 +1059,8 @@ def run(r, scale=1, oracle_only=False):
         cases.append(gen_kernel_case(rng, "valid"))
     for _ in range(n["malformed"]):
         cases.append(gen_kernel_case(rng, "malformed"))
+    for _ in range(n["khist"]):
+        cases.append(gen_khist(rng))
     for _ in range(n["cellsize"]):
         cases.append(gen_cellsize_case(rng))
     for _ in range(n["round"]):
@@ -998,8 +1081,12 @@ def run(r, scale=1, oracle_only=False):
         if kind == "dist":
             tags.append(f"metric:{c['metric']}")
         r.case(c, desc=c if idx % 97 == 0 else None, nontrivial=not trivial, tags=tags)
+        builds = None
         try:
-            bad = oracle_kernel(c, note=r.tag) if kind == "circle" else ORACLES[kind](c)
+            if kind == "khist":
+                bad, builds = run_khist(c)
+            else:
+                bad = oracle_kernel(c, note=r.tag) if kind == "circle" else ORACLES[kind](c)
         except Exception as ex:          # an oracle crash must not hide a problem
             bad = None
             r.notes.append(f"oracle crashed on {c}: {ex!r}")
@@ -1022,6 +1109,11 @@ def run(r, scale=1, oracle_only=False):
             for k_, line in enumerate(kernel_requests(c)):
                 requests.append(line)
                 owners.append((idx, "kernel", k_))
+        elif kind == "khist":
+            for k_, st in enumerate(c["steps"]):
+                if builds is not None and not too_big(st["call"]):
+                    requests.append(kernel_requests(st["call"])[0])
+                    owners.append((idx, "khist", (k_, builds[k_])))
         elif kind == "round":
             requests.append(f"round q={c['n']}/{c['d']}")
             owners.append((idx, "round", 0))
@@ -1046,6 +1138,9 @@ def run(r, scale=1, oracle_only=False):
                 compare_string(r, c, lst[0][2], lst[1][2])
             elif what == "kernel":
                 compare_kernel(r, c, [x[2] for x in lst])
+            elif what == "khist":
+                for _, (k_, built), rep_ in lst:
+                    compare_kernel(r, c["steps"][k_]["call"], [rep_], built=built)
             elif what == "round":
                 compare_round(r, c, lst[0][2])
             else:
